@@ -958,8 +958,19 @@ def gen_lhistory(rng):
   return out
 
 
+def gen_thistory(rng):
+  """ToNNX histories: per call a `mutable` choice, an input, and either no `rngs=` or a fresh
+  nnx.Rngs (its seed) handed in for this call only."""
+  return [(m, xs, rng.randrange(1000, 2000) if rng.random() < 0.4 else None) for m, xs in gen_history(rng)]
+
+
 def gen_history(rng):
   return [(rng.choice(MUT_CHOICES), [rng.randrange(-3, 4) for _ in range(6)]) for _ in range(rng.randrange(1, 5))]
+
+
+def rng_counts(rngs):
+  """stream name -> how many keys have been drawn from it"""
+  return {name: int(stream.count.value) for name, stream in rngs.items()} if rngs else {}
 
 
 class Spy:
@@ -983,7 +994,7 @@ def key_str(k):
 
 def run_tonnx_case(ctx, spec, hist, placement, seeds, reqs, metas):
   """Runs one ToNNX history on the implementation with its reference; queues model requests."""
-  case = {'kind': 'tonnx', 'spec': spec, 'hist': [[m, xs] for m, xs in hist], 'placement': placement, 'seeds': seeds}
+  case = {'kind': 'tonnx', 'spec': spec, 'hist': [list(e) for e in hist], 'placement': placement, 'seeds': seeds}
   feat = spec_features(spec)
   ctx.case(case)
   ctx.count('tonnx_placement', placement)
@@ -1053,12 +1064,26 @@ def run_tonnx_case(ctx, spec, hist, placement, seeds, reqs, metas):
       return
     reqs.append(('init_attrs', [_base_reg_json(), [], forest_json(V, lbox_json)]))
     metas.append((case, 'init', impl_attrs_canon(wrapper_attrs(get()))))
-    for step, (mut, xs) in enumerate(hist):
+    own_flags = [True]  # per recorded init/apply: were the keys drawn from the wrapper's own rngs?
+    for step, entry in enumerate(hist):
+      mut, xs = entry[0], entry[1]
+      callseed = entry[2] if len(entry) > 2 else None
       x = jnp.asarray(np.array(xs, np.int32).reshape(2, 3))
-      keys = draw()
       kw = {} if mut is False else {'mutable': mut}
+      ctx.count('tonnx_percall_rngs', callseed is not None)
+      if callseed is None:
+        keys = draw()
+        call_rngs = None
+      else:
+        # a fresh nnx.Rngs handed in for this call, and an identical twin for the reference
+        call_rngs = nnx.Rngs(params=callseed, dropout=callseed + 1)
+        twin = nnx.Rngs(params=callseed, dropout=callseed + 1)
+        keys = {name: stream() for name, stream in twin.items()}
+        kw = dict(kw, rngs=call_rngs)
+      own_flags.append(callseed is None)
+      own_before = rng_counts(get().rngs)
       snapV = snapshot_vars(V)
-      rr = call(lambda: module.apply(V, x, rngs=keys, **kw))
+      rr = call(lambda: module.apply(V, x, rngs=keys, **{k_: v_ for k_, v_ in kw.items() if k_ != 'rngs'}))
       if snapshot_vars(V) != snapV:
         ctx.notes.append('reference apply changed its variables')
       attrs_before = forest_json(wrapper_attrs(get()), nvar_json)
@@ -1082,8 +1107,20 @@ def run_tonnx_case(ctx, spec, hist, placement, seeds, reqs, metas):
       else:
         y_ref, upd = rr[1]
         upd = unfreeze(upd)
+      # which Rngs the keys were drawn from: the per-call object when one is given, else the wrapper's own
+      own_after = rng_counts(get().rngs)
+      if callseed is None:
+        want_own = {n: c + 1 for n, c in own_before.items()}
+        if own_after != want_own:
+          ctx.violation('tonnx-own-rngs-not-advanced', f'call {step} without rngs=: the wrapper\'s stream counts went {own_before} -> {own_after}, one draw per stream expected', c2)
+          return
+      else:
+        given_after = rng_counts(call_rngs)
+        if own_after != own_before or any(c != 1 for c in given_after.values()):
+          ctx.violation('tonnx-percall-rngs-ignored', f'call {step} with rngs=nnx.Rngs(params={callseed}, dropout={callseed + 1}): the given streams\' counts are {given_after} (1 expected) and the wrapper\'s own went {own_before} -> {own_after} (unchanged expected)', c2)
+          return
       if out_str(wr[1]) != out_str(post(y_ref)):
-        ctx.violation('tonnx-output-differs', f'call {step} (mutable={mut}): wrapper returned {out_str(wr[1])}, Linen apply on the tracked variables returns {out_str(post(y_ref))}', c2)
+        ctx.violation('tonnx-output-differs' + ('-percall-rngs' if callseed is not None else ''), f'call {step} (mutable={mut}): wrapper returned {out_str(wr[1])}, Linen apply on the tracked variables returns {out_str(post(y_ref))}', c2)
         return
       if mut is not False:
         V = deep_merge(V, upd)
@@ -1101,9 +1138,17 @@ def run_tonnx_case(ctx, spec, hist, placement, seeds, reqs, metas):
       # keys as symbolic terms: the model says which (stream, count) every init/apply was handed
       streams = [['default', 0]] if default_only else [['params', 0], ['dropout', 0]]
       seed_of = {'default': seeds[0], 'params': seeds[0], 'dropout': seeds[1]}
-      got = [sorted((n, key_str(k)) for n, k in d.items()) for d in keylog]
-      reqs.append(('draw', [streams, len(keylog), True]))
+      got = [sorted((n, key_str(k)) for n, k in d.items()) for d, own in zip(keylog, own_flags) if own]
+      reqs.append(('draw', [streams, len(got), True]))
       metas.append((case, 'keys', (got, seed_of)))
+      # draws from a per-call object: its stream key folded with count 0 (theorem tonnx_call_uses_given_rngs)
+      hist_seeds = [e[2] for e in hist if len(e) > 2 and e[2] is not None]
+      given = [sorted((n, key_str(k)) for n, k in d.items()) for d, own in zip(keylog, own_flags) if not own]
+      for cs, g in zip(hist_seeds, given):
+        want = sorted([('params', key_str(jax.random.fold_in(jax.random.key(cs), 0))), ('dropout', key_str(jax.random.fold_in(jax.random.key(cs + 1), 0)))])
+        if g != want:
+          ctx.violation('tonnx-rng-keys-differ', f'a call with rngs=nnx.Rngs(params={cs}, dropout={cs + 1}) handed the wrapped module other keys than the first keys of those streams', case)
+          break
 
 
 _BASE_REG = None
@@ -1684,10 +1729,10 @@ def run(ctx):
   n_tonnx = 150 * k
   for i in range(n_tonnx):
     spec = gen_spec(rng, rng.choice([0, 1, 2, 2, 3]), want_stat=rng.random() < 0.7)
-    hist = gen_history(rng)
+    hist = gen_thistory(rng)
     placement = 'alone' if i % 3 else 'nnx-parent'
     seeds = [rng.randrange(100), rng.randrange(100), rng.random() < 0.3]
-    case = {'kind': 'tonnx', 'spec': spec, 'hist': [[m, xs] for m, xs in hist], 'placement': placement, 'seeds': seeds}
+    case = {'kind': 'tonnx', 'spec': spec, 'hist': [list(e) for e in hist], 'placement': placement, 'seeds': seeds}
     guarded(ctx, case, lambda: run_tonnx_case(ctx, spec, hist, placement, seeds, reqs, metas))
     if i == 0:
       ctx.sample({'kind': 'tonnx', 'spec': spec, 'hist': hist, 'placement': placement})
@@ -1728,7 +1773,7 @@ def _run_case(ctx, drv, obj):
   if kind == 'scenario':
     guarded(ctx, case, lambda: SCENARIOS[case['name']](ctx))
   elif kind == 'tonnx':
-    hist = [(m if not isinstance(m, list) else list(m), xs) for m, xs in case['hist']]
+    hist = [tuple(e) for e in case['hist']]
     run_tonnx_case(ctx, _spec_from_json(case['spec']), hist, case.get('placement', 'alone'), case.get('seeds', [0, 1]), reqs, metas)
   elif kind == 'tonnx-bridge-parent':
     hist = [(m, xs) for m, xs in case['hist']]
